@@ -323,4 +323,6 @@ def run(run: Run):
     run.floor('C13.R4', 20)
     run.floor('C13.R5', 6)
     run.floor('C13.R6', 4)
+    from .common import shared_mechanisms as _shared
+    _shared(run, 'C13', 9, ['stored-values'])
     return INFO
